@@ -732,7 +732,7 @@ def run_cases(cases, tag):
 
 
 def run(ck):
-    built = ck.build_proofs()
+    built = ck.build_proofs(extra_targets=["theories/Expand/PathGenProofs.vo"])
     if not built:
         # the model itself has no proofs in it: keep the correspondence running
         common.coq_make(["theories/Expand/SafePath.vo"])
